@@ -866,4 +866,553 @@ theorem deleteElem_spec {a : Arr} (h : a.WF) (k : Int) :
     simp only [Arr.abs, e]
     exact this
 
+/-! ## F. operations on variables -/
+
+theorem getLastD_iotaFrom (s : Int) (n : Nat) (d : Int) :
+    (iotaFrom s n).getLastD d = if n = 0 then d else s + n - 1 := by
+  induction n generalizing s d with
+  | zero => rfl
+  | succ n ih =>
+    simp only [iotaFrom, List.getLastD_cons, ih]
+    split
+    · next h => subst h; simp
+    · simp; omega
+
+theorem wf_idx_ne_nil {a : Arr} (h : a.WF) (e : a.idx = some []) : False := by
+  have := (h.shape [] e).2.2.2
+  simp [isIotaFrom] at this
+
+theorem indexedMax_spec {a : Arr} (h : a.WF) : indexedMax a = a.abs.maxKey := by
+  rw [SMap.maxKey_eq_getLastD]
+  unfold indexedMax Arr.abs
+  split
+  · next x xs e =>
+    simp only [e]
+    rw [keys_zip (h.pre e).len, List.getLastD_cons, List.getLastD_cons]
+  · next hno =>
+    cases e : a.idx with
+    | none =>
+      simp only
+      rw [keys_enumFrom, getLastD_iotaFrom]
+      split <;> omega
+    | some ix =>
+      cases ix with
+      | nil => exact (wf_idx_ne_nil h e).elim
+      | cons x xs => exact (hno x xs e).elim
+
+theorem indexedMax_ge {a : Arr} (h : a.WF) : -1 ≤ indexedMax a := by
+  rw [indexedMax_spec h]
+  apply SMap.maxKey_ge_neg_one
+  intro p hp
+  exact abs_keys_nonneg h p.1 (List.mem_map_of_mem hp)
+
+theorem resolve_model {a : Arr} (h : a.WF) (i : Int) :
+    (if i < 0 then i + (indexedMax a + 1) else i) = resolve a.abs i := by
+  simp only [resolve, indexedMax_spec h]
+
+theorem litLoop_spec (es : List Elem) : ∀ (a : Arr) (index : Int), a.WF → 0 ≤ index →
+    ∃ a', litLoop a index es = .ok a' ∧ a'.WF ∧
+      (litOK a.abs index es = true → a'.abs = specLit a.abs index es) := by
+  induction es with
+  | nil => intro a index h _; exact ⟨a, rfl, h, fun _ => rfl⟩
+  | cons e es ih =>
+    intro a index h hi
+    cases e with
+    | plain v =>
+      obtain ⟨a1, e1, w1, ab1⟩ := setElem_spec h index v hi
+      obtain ⟨a2, e2, w2, ab2⟩ := ih a1 (index + 1) w1 (by omega)
+      refine ⟨a2, ?_, w2, ?_⟩
+      · simp only [litLoop, e1, e2]
+      · intro ok
+        simp only [litOK] at ok
+        simp only [specLit]
+        rw [← ab1]
+        exact ab2 (by rw [ab1]; exact ok)
+    | «at» i v =>
+      simp only [litLoop, resolve_model h, litOK, specLit]
+      by_cases hj : resolve a.abs i < 0
+      · refine ⟨a, by rw [if_pos hj], h, ?_⟩
+        intro ok
+        simp only [Bool.and_eq_true, decide_eq_true_eq] at ok
+        omega
+      · rw [if_neg hj, if_neg hj]
+        obtain ⟨a1, e1, w1, ab1⟩ := setElem_spec h (resolve a.abs i) v (by omega)
+        obtain ⟨a2, e2, w2, ab2⟩ := ih a1 (resolve a.abs i + 1) w1 (by omega)
+        refine ⟨a2, ?_, w2, ?_⟩
+        · simp only [e1, e2]
+        · intro ok
+          simp only [Bool.and_eq_true, decide_eq_true_eq] at ok
+          rw [← ab1]
+          exact ab2 (by rw [ab1]; exact ok.2)
+
+theorem baseArr_spec {v : Var} (h : v.WF) : (baseArr v).WF ∧ (baseArr v).abs = v.abs := by
+  unfold baseArr Var.abs
+  cases v.kind with
+  | unknown => exact ⟨Arr.WF.dense _, rfl⟩
+  | str => exact ⟨Arr.WF.dense _, rfl⟩
+  | indexed => exact ⟨h.arr, rfl⟩
+
+theorem wf_indexed {a : Arr} (w : a.WF) (s : Bool) (str : Str) : (Var.mk .indexed s str a).WF :=
+  ⟨w, fun c => by cases c⟩
+
+theorem setWithIndex_spec (v : Var) {base : Arr} (h : v.WF) (hb : base.WF) (i : Int) (s : Str) :
+    ∃ v', setWithIndex v base i s = .ok v' ∧ v'.WF ∧
+      v'.abs = (if resolve base.abs i < 0 then v.abs else base.abs.insert (resolve base.abs i) s) := by
+  simp only [setWithIndex, resolve_model hb]
+  by_cases hj : resolve base.abs i < 0
+  · rw [if_pos hj, if_pos hj]; exact ⟨v, rfl, h, rfl⟩
+  · rw [if_neg hj, if_neg hj]
+    obtain ⟨a1, e1, w1, ab1⟩ := setElem_spec hb (resolve base.abs i) s (by omega)
+    rw [e1]
+    exact ⟨_, rfl, wf_indexed w1 _ _, ab1⟩
+
+theorem abs_nil_of_list_nil {a : Arr} (e : a.list = []) : a.abs = [] := by
+  unfold Arr.abs
+  split
+  · rw [e]; rfl
+  · rw [e]; simp
+
+theorem appendZero_spec {a : Arr} (h : a.WF) (s : Str) :
+    ∃ a', appendZero a s = .ok a' ∧ a'.WF ∧
+      a'.abs = a.abs.insert 0 (optStr (a.abs.lookup 0) ++ s) := by
+  unfold appendZero
+  split
+  · next x xs el =>
+    split
+    · next ei =>
+      refine ⟨_, rfl, Arr.WF.dense _, ?_⟩
+      simp [Arr.abs, ei, el, enumFrom, SMap.insert, SMap.lookup, optStr]
+    · next ei =>
+      have := (h.pre ei).len
+      rw [el] at this
+      simp at this
+    · next i0 is ei =>
+      have pre := h.pre ei
+      split
+      · next h0 =>
+        subst h0
+        refine ⟨_, rfl, ⟨?_⟩, ?_⟩
+        · intro ix' e
+          cases e
+          have := h.shape _ ei
+          rw [el] at this
+          exact ⟨by simpa using this.1, this.2.1, this.2.2.1, this.2.2.2⟩
+        · simp [Arr.abs, ei, el, SMap.insert, SMap.lookup, optStr]
+      · next h0 =>
+        obtain ⟨a1, e1, w1, ab1⟩ := setElem_spec h 0 s (Int.le_refl _)
+        refine ⟨a1, e1, w1, ?_⟩
+        rw [ab1]
+        have : a.abs.lookup 0 = none := by
+          apply SMap.lookup_none_of_lt
+          intro p hp
+          have hk : p.1 ∈ a.abs.keys := List.mem_map_of_mem hp
+          simp only [Arr.abs, ei] at hk
+          rw [keys_zip pre.len] at hk
+          have i0pos : 0 ≤ i0 := pre.nonneg i0 (List.mem_cons_self ..)
+          simp only [List.mem_cons] at hk
+          rcases hk with hk | hk
+          · omega
+          · have inc := pre.inc
+            unfold Increasing at inc
+            rw [List.pairwise_cons] at inc
+            have := inc.1 _ hk
+            omega
+        rw [this]
+        simp [optStr]
+  · next el =>
+    obtain ⟨a1, e1, w1, ab1⟩ := setElem_spec h 0 s (Int.le_refl _)
+    refine ⟨a1, e1, w1, ?_⟩
+    rw [ab1, abs_nil_of_list_nil el]
+    simp [SMap.lookup, optStr]
+
+theorem Var.WF.zero_var : Var.zero.WF := ⟨Arr.WF.dense _, fun _ => rfl⟩
+
+theorem appElemBase_wf {a : Arr} (h : a.WF) (s : Str) :
+    ∀ a1, appElemBase a s = a1 → ∃ a', a1 = .ok a' ∧ a'.WF := by
+  unfold appElemBase
+  intro a1 e
+  split at e
+  · exact ⟨_, e.symm, Arr.WF.dense _⟩
+  · next el ei =>
+    have := (h.pre ei).len
+    rw [el] at this
+    simp at this
+  · next x xs i0 is el ei =>
+    split at e
+    · refine ⟨_, e.symm, ⟨?_⟩⟩
+      intro ix' e'
+      cases e'
+      have := h.shape _ ei
+      rw [el] at this
+      exact ⟨by simpa using this.1, this.2.1, this.2.2.1, this.2.2.2⟩
+    · exact ⟨_, e.symm, h⟩
+  · exact ⟨_, e.symm, h⟩
+
+/-- Every operation preserves the invariant and never panics; outside the recorded divergences
+    (`opOK`) it is the bash operation on the abstract map. -/
+theorem applyOp_spec (v : Var) (op : Op) (h : v.WF) :
+    ∃ v', applyOp v op = .ok v' ∧ v'.WF ∧ (opOK v op = true → v'.abs = specOp v.abs op) := by
+  obtain ⟨bw, bab⟩ := baseArr_spec h
+  cases op with
+  | assign es =>
+    obtain ⟨a', e, w, ab⟩ := litLoop_spec es ⟨[], none⟩ 0 (Arr.WF.dense _) (Int.le_refl _)
+    refine ⟨⟨.indexed, true, v.str, a'⟩, by simp only [applyOp, e, liftArr], wf_indexed w _ _, ?_⟩
+    intro ok
+    exact ab ok
+  | append es =>
+    obtain ⟨a', e, w, ab⟩ := litLoop_spec es (baseArr v) (indexedMax (baseArr v) + 1) bw
+      (by have := indexedMax_ge bw; omega)
+    refine ⟨⟨.indexed, true, v.str, a'⟩, by simp only [applyOp, e, liftArr], wf_indexed w _ _, ?_⟩
+    intro ok
+    simp only [opOK] at ok
+    rw [indexedMax_spec bw, bab] at ab
+    exact ab ok
+  | setElem i s =>
+    obtain ⟨v', e, w, ab⟩ := setWithIndex_spec v h bw i s
+    refine ⟨v', e, w, fun _ => ?_⟩
+    rw [ab, bab]; rfl
+  | setStr s =>
+    simp only [applyOp]
+    cases hk : v.kind with
+    | indexed =>
+      obtain ⟨v', e, w, ab⟩ := setWithIndex_spec v h h.arr 0 s
+      refine ⟨v', e, w, fun _ => ?_⟩
+      rw [ab]
+      simp [resolve, specOp, Var.abs, hk]
+    | unknown =>
+      refine ⟨_, rfl, ⟨h.arr, fun c => by cases c⟩, fun _ => ?_⟩
+      simp [Var.abs, hk, specOp, SMap.insert]
+    | str =>
+      refine ⟨_, rfl, ⟨h.arr, fun c => by cases c⟩, fun _ => ?_⟩
+      simp [Var.abs, hk, specOp, SMap.insert]
+  | appStr s =>
+    simp only [applyOp]
+    cases hk : v.kind with
+    | indexed =>
+      obtain ⟨a', e, w, ab⟩ := appendZero_spec h.arr s
+      refine ⟨⟨.indexed, true, v.str, a'⟩, by simp only [e, liftArr], wf_indexed w _ _, fun _ => ?_⟩
+      simp only [Var.abs, hk, specOp]
+      exact ab
+    | unknown =>
+      refine ⟨_, rfl, ⟨h.arr, fun c => by cases c⟩, fun _ => ?_⟩
+      simp [Var.abs, hk, specOp, SMap.insert, SMap.lookup, optStr, h.zero hk]
+    | str =>
+      refine ⟨_, rfl, ⟨h.arr, fun c => by cases c⟩, fun _ => ?_⟩
+      simp [Var.abs, hk, specOp, SMap.insert, SMap.lookup, optStr]
+  | appElem i s =>
+    simp only [applyOp]
+    cases hk : v.kind with
+    | indexed =>
+      simp only
+      obtain ⟨a1, e1, w1⟩ := appElemBase_wf h.arr s _ rfl
+      rw [e1]
+      simp only
+      obtain ⟨v', e, w, _⟩ := setWithIndex_spec v h w1 i v.str
+      exact ⟨v', e, w, fun ok => by simp [opOK, hk] at ok⟩
+    | unknown =>
+      simp only
+      obtain ⟨v', e, w, ab⟩ := setWithIndex_spec v h bw i (v.str ++ s)
+      refine ⟨v', e, w, fun _ => ?_⟩
+      rw [ab, bab]
+      have hv : v.abs = [] := by simp [Var.abs, hk]
+      simp only [specOp, hv, h.zero hk, SMap.lookup, optStr]
+    | str =>
+      simp only
+      obtain ⟨v', e, w, _⟩ := setWithIndex_spec v h bw i (v.str ++ s)
+      exact ⟨v', e, w, fun ok => by simp [opOK, hk] at ok⟩
+  | unsetElem i =>
+    simp only [applyOp]
+    cases hk : v.kind with
+    | indexed =>
+      simp only [resolve_model h.arr]
+      by_cases hj : resolve v.arr.abs i < 0
+      · rw [if_pos hj]
+        refine ⟨v, rfl, h, fun _ => ?_⟩
+        simp [specOp, Var.abs, hk, hj]
+      · rw [if_neg hj]
+        obtain ⟨a', e, w, ab⟩ := deleteElem_spec h.arr (resolve v.arr.abs i)
+        rw [e]
+        refine ⟨_, rfl, wf_indexed w _ _, fun _ => ?_⟩
+        simp [specOp, Var.abs, hk, hj, ab]
+    | unknown =>
+      refine ⟨v, rfl, h, fun _ => ?_⟩
+      simp only [specOp, Var.abs, hk, SMap.erase]
+      split <;> rfl
+    | str =>
+      simp only
+      split
+      · next h0 =>
+        subst h0
+        refine ⟨_, rfl, Var.WF.zero_var, fun _ => ?_⟩
+        simp [specOp, Var.abs, hk, Var.zero, resolve, SMap.erase]
+      · next h0 =>
+        refine ⟨v, rfl, h, fun ok => ?_⟩
+        simp only [opOK, hk, bne_self_eq_false, Bool.false_or, decide_eq_true_eq] at ok
+        simp only [specOp, Var.abs, hk, resolve]
+        rw [if_neg (by omega), if_neg (by omega)]
+        simp only [SMap.erase]
+        rw [if_neg h0]
+  | unsetAll =>
+    simp only [applyOp]
+    split
+    · exact ⟨_, rfl, Var.WF.zero_var, fun _ => by simp [specOp, Var.abs, Var.zero]⟩
+    · next hs =>
+      refine ⟨v, rfl, h, fun ok => ?_⟩
+      simp only [opOK, Bool.or_eq_true, beq_iff_eq] at ok
+      rcases ok with ok | ok
+      · exact absurd ok hs
+      · simp [specOp, Var.abs, ok]
+
+theorem runOps_spec (ops : List Op) : ∀ (v : Var), v.WF →
+    ∃ v', runOps v ops = .ok v' ∧ v'.WF ∧ (runOK v ops = true → v'.abs = specRun v.abs ops) := by
+  induction ops with
+  | nil => intro v h; exact ⟨v, rfl, h, fun _ => rfl⟩
+  | cons op ops ih =>
+    intro v h
+    obtain ⟨v1, e1, w1, ab1⟩ := applyOp_spec v op h
+    obtain ⟨v2, e2, w2, ab2⟩ := ih v1 w1
+    refine ⟨v2, by simp only [runOps, e1, e2], w2, ?_⟩
+    intro ok
+    simp only [runOK, e1, Bool.and_eq_true] at ok
+    simp only [specRun, List.foldl_cons]
+    rw [← ab1 ok.1]
+    exact ab2 ok.2
+
+/-! ## E. reads -/
+
+theorem indexedKeys_spec {a : Arr} (h : a.WF) : indexedKeys a = .ok a.abs.keys := by
+  unfold indexedKeys Arr.abs
+  split
+  · rw [keys_enumFrom]
+  · next ix e =>
+    have pre := h.pre e
+    rw [if_pos (by rw [pre.len]; exact Nat.le_refl _), keys_zip pre.len, ← pre.len, List.take_length]
+
+theorem count_spec {a : Arr} (h : a.WF) : a.list.length = a.abs.length := by
+  unfold Arr.abs
+  split
+  · rw [length_enumFrom]
+  · next ix e => rw [List.length_zip, (h.pre e).len, Nat.min_self]
+
+theorem lookup_zip (ix : List Int) (list : List Str) (k : Int) (hl : ix.length = list.length)
+    (inc : Increasing ix) :
+    SMap.lookup (ix.zip list) k = if foundAt ix k = true then list[lb ix k]? else none := by
+  induction ix generalizing list with
+  | nil => simp [SMap.lookup, foundAt]
+  | cons x xs ih =>
+    cases list with
+    | nil => simp at hl
+    | cons y ys =>
+      simp only [List.length_cons, Nat.add_right_cancel_iff] at hl
+      unfold Increasing at inc ih
+      rw [List.pairwise_cons] at inc
+      simp only [List.zip_cons_cons, SMap.lookup, foundAt, lb]
+      by_cases hx : x < k
+      · simp only [hx, ↓reduceIte]
+        rw [if_neg (by omega), ih ys hl inc.2]
+        simp
+      · simp only [hx, ↓reduceIte]
+        by_cases e : k = x
+        · subst e; simp
+        · rw [if_neg e]
+          have : (x == k) = false := by simp; omega
+          rw [this]
+          simp only [Bool.false_eq_true, if_false]
+          apply SMap.lookup_none_of_lt
+          intro p hp
+          have := inc.1 _ (mem_zip_key hp)
+          omega
+
+theorem lookup_enumFrom (s : Int) (l : List Str) (k : Int) :
+    SMap.lookup (enumFrom s l) k = if s ≤ k ∧ k < s + l.length then l[(k - s).toNat]? else none := by
+  induction l generalizing s with
+  | nil =>
+    simp only [enumFrom, SMap.lookup, List.length_nil]
+    split <;> simp
+  | cons y ys ih =>
+    simp only [enumFrom, SMap.lookup, List.length_cons, ih]
+    by_cases e : k = s
+    · subst e
+      simp
+      omega
+    · rw [if_neg e]
+      by_cases c : s + 1 ≤ k ∧ k < s + 1 + ↑ys.length
+      · rw [if_pos c, if_pos (by omega)]
+        have : (k - s).toNat = (k - (s + 1)).toNat + 1 := by omega
+        rw [this]
+        simp
+      · rw [if_neg c, if_neg (by omega)]
+
+theorem indexedVal_spec {a : Arr} (h : a.WF) (i : Int) (hi : 0 ≤ i) :
+    indexedVal a i = .ok (a.abs.lookup i) := by
+  unfold indexedVal Arr.abs
+  split
+  · next ix e =>
+    have pre := h.pre e
+    simp only [e, search_eq ix i pre.inc, lookup_zip ix a.list i pre.len pre.inc]
+    cases hf : foundAt ix i with
+    | false => simp
+    | true =>
+      have hlt := lb_lt_of_foundAt hf
+      rw [pre.len] at hlt
+      simp only [if_true]
+      rw [List.getElem?_eq_getElem hlt]
+  · next e =>
+    simp only [e]
+    rw [lookup_enumFrom]
+    split
+    · next hlt =>
+      rw [if_neg (by omega), if_pos (by omega)]
+      have : i.toNat < a.list.length := by omega
+      simp only [Int.sub_zero]
+      rw [List.getElem?_eq_getElem this]
+    · next hge =>
+      rw [if_neg (by omega)]
+
+theorem elemRead_spec {a : Arr} (h : a.WF) (i : Int) : elemRead a i = specRead a.abs i := by
+  simp only [elemRead, specRead, resolve_model h]
+  by_cases hj : resolve a.abs i < 0
+  · rw [if_pos hj, if_pos hj]
+  · rw [if_neg hj, if_neg hj, indexedVal_spec h _ (by omega)]
+    cases SMap.lookup a.abs (resolve a.abs i) <;> rfl
+
+/-- Dropping up to the first element ≥ o = keeping the elements with key ≥ o. -/
+theorem drop_lb_zip (ix : List Int) (list : List Str) (o : Int) (hl : ix.length = list.length)
+    (inc : Increasing ix) :
+    list.drop (lb ix o) = SMap.vals ((ix.zip list).filter (fun p => decide (o ≤ p.1))) := by
+  induction ix generalizing list with
+  | nil =>
+    cases list with
+    | nil => rfl
+    | cons y ys => simp at hl
+  | cons x xs ih =>
+    cases list with
+    | nil => simp at hl
+    | cons y ys =>
+      simp only [List.length_cons, Nat.add_right_cancel_iff] at hl
+      unfold Increasing at inc ih
+      rw [List.pairwise_cons] at inc
+      simp only [lb, List.zip_cons_cons]
+      split
+      · next hx =>
+        rw [List.filter_cons_of_neg (by simp; omega)]
+        simpa using ih ys hl inc.2
+      · next hx =>
+        have : ((x, y) :: xs.zip ys).filter (fun p => decide (o ≤ p.1)) = (x, y) :: xs.zip ys := by
+          rw [List.filter_eq_self]
+          intro p hp
+          simp only [List.mem_cons] at hp
+          rcases hp with hp | hp
+          · subst hp; simp; omega
+          · have := inc.1 _ (mem_zip_key hp)
+            simp; omega
+        rw [this]
+        simp only [List.drop_zero, SMap.vals, List.map_cons]
+        have := vals_zip hl
+        simp only [SMap.vals] at this
+        rw [this]
+
+theorem filter_enumFrom (s : Int) (l : List Str) (o : Int) :
+    SMap.vals ((enumFrom s l).filter (fun p => decide (o ≤ p.1))) = l.drop (o - s).toNat := by
+  induction l generalizing s with
+  | nil => simp [enumFrom, SMap.vals]
+  | cons y ys ih =>
+    simp only [enumFrom]
+    by_cases c : o ≤ s
+    · have all : ((s, y) :: enumFrom (s + 1) ys).filter (fun p => decide (o ≤ p.1))
+          = (s, y) :: enumFrom (s + 1) ys := by
+        rw [List.filter_eq_self]
+        intro p hp
+        simp only [List.mem_cons] at hp
+        rcases hp with hp | hp
+        · subst hp; simpa using c
+        · have := mem_enumFrom_key hp
+          simp; omega
+      rw [all]
+      have : (o - s).toNat = 0 := by omega
+      rw [this]
+      simp only [List.drop_zero, SMap.vals, List.map_cons]
+      have := vals_enumFrom (s + 1) ys
+      simp only [SMap.vals] at this
+      rw [this]
+    · rw [List.filter_cons_of_neg (by simpa using c), ih (s + 1)]
+      have : (o - s).toNat = (o - (s + 1)).toNat + 1 := by omega
+      rw [this]
+      simp
+
+theorem slicePos_nonneg (len : Nat) (n : Int) (h : 0 ≤ n) : slicePos len n = min n.toNat len := by
+  unfold slicePos
+  rw [if_neg (by omega)]
+  split <;> omega
+
+theorem take_min_length {α : Type} (l : List α) (n : Nat) : l.take (min n l.length) = l.take n := by
+  by_cases h : n ≤ l.length
+  · rw [Nat.min_eq_left h]
+  · rw [Nat.min_eq_right (by omega), List.take_length, List.take_of_length_le (by omega)]
+
+theorem sliceOffset_spec {a : Arr} (h : a.WF) (offset : Option Int) :
+    sliceOffset a offset = .ok (specOffset a.abs offset).vals := by
+  cases offset with
+  | none =>
+    simp only [sliceOffset, specOffset, Arr.abs]
+    split
+    · rw [vals_enumFrom]
+    · next ix e => rw [vals_zip (h.pre e).len]
+  | some off =>
+    have hmax := indexedMax_spec h
+    simp only [sliceOffset, specOffset]
+    split
+    · next x xs e =>
+      have pre := h.pre e
+      have hm : (x :: xs).getLastD 0 = a.abs.maxKey := by
+        rw [← hmax]; simp only [indexedMax, e]
+      rw [hm]
+      simp only [search_eq _ _ pre.inc]
+      rw [if_pos (by rw [← pre.len]; exact lb_le_length ..)]
+      rw [drop_lb_zip _ _ _ pre.len pre.inc]
+      simp only [Arr.abs, e]
+    · next hno =>
+      have e : a.idx = none := by
+        cases e : a.idx with
+        | none => rfl
+        | some ix =>
+          cases ix with
+          | nil => exact (wf_idx_ne_nil h e).elim
+          | cons x xs => exact (hno x xs e).elim
+      have hm : a.abs.maxKey + 1 = a.list.length := by
+        rw [← hmax]; simp only [indexedMax, e]; omega
+      rw [hm]
+      simp only [Arr.abs, e]
+      rw [filter_enumFrom]
+      by_cases hneg : off < 0
+      · have : slicePos a.list.length off =
+            ((if off + (a.list.length : Int) < 0 then (a.list.length : Int)
+              else off + (a.list.length : Int)) - 0).toNat := by
+          unfold slicePos
+          rw [if_pos hneg]
+          simp only []
+          split <;> split <;> omega
+        rw [if_pos hneg, this]
+      · rw [if_neg hneg]
+        unfold slicePos
+        rw [if_neg hneg]
+        split
+        · rw [List.drop_of_length_le (Nat.le_refl _), List.drop_of_length_le (by omega)]
+        · simp
+
+/-- `${a[@]:off:len}`: for a non-negative (or absent) length the code computes the map
+    definition. -/
+theorem sliceElems_spec {a : Arr} (h : a.WF) (offset length : Option Int)
+    (hl : ∀ l, length = some l → 0 ≤ l) :
+    ∃ r, sliceElems a offset length = .ok r ∧ specSlice a.abs offset length = some r := by
+  simp only [sliceElems, specSlice, sliceOffset_spec h]
+  cases length with
+  | none => exact ⟨_, rfl, rfl⟩
+  | some l =>
+    have hl0 := hl l rfl
+    simp only
+    rw [if_neg (by omega)]
+    refine ⟨_, rfl, ?_⟩
+    rw [slicePos_nonneg _ _ hl0, take_min_length]
+
 end ShVerif.C33
